@@ -16,7 +16,7 @@ Qed.
 Lemma pairs_singleton_l (y : string) (vs : list string) : pairs [y] vs = (λ x, (y, x)) <$> vs.
 Proof.
   unfold pairs. simpl. rewrite app_nil_r.
-  induction vs as [|x vs IH]; simpl; [done|]. f_equal. exact IH.
+  induction vs as [|x vs IH]; simpl; [done|]. by f_equal.
 Qed.
 
 (* ---------- 1. rename_g is rename ---------- *)
